@@ -1,11 +1,15 @@
 SPECIFICATION Spec
 CONSTANTS
-  NConn = 1
-  MaxIn = 2
-  MaxSteps = 5
+  NConn = 2
+  MaxIn = 4
+  MaxSteps = 99
   Classes = {"GoodKA", "GoodClose", "GoodHead", "BadLine", "BadHeader", "BadCL", "BadChunk", "BadEscape", "Nul", "TlsHello", "TlsCut", "Truncate", "Rest"}
   Racing = TRUE
   Linger = TRUE
-  DefectSets = {{}, {"echo505", "cookieecho"}}
+  DefectSets = {{"cookieecho"}}
 INVARIANT TypeOK
+INVARIANT Conforms
+INVARIANT NoResidue
+INVARIANT TablesOfLive
+VIEW View
 CHECK_DEADLOCK FALSE
